@@ -1,11 +1,11 @@
 package props
 
 import (
-	"time"
 	"bytes"
 	"fmt"
 	"sync"
 	"testing"
+	"time"
 
 	"github.com/tsuna/gohbase/compression/snappy"
 	"github.com/tsuna/gohbase/region"
